@@ -355,7 +355,7 @@ func (c14) Exec(pj json.RawMessage, tape *simrt.Tape, keepLog bool) harness.RunO
 	if err != nil {
 		return harness.RunOut{Infra: err.Error()}
 	}
-	s := simrt.New(simrt.Config{Tape: tape, KeepLog: keepLog})
+	s := simrt.New(simrt.Config{DaemonsOK: true, Tape: tape, KeepLog: keepLog})
 	simunix.Attach(s, env.k)
 	recs := make([][]fsRec, len(p.Clients))
 	var finals []fsRec
